@@ -87,6 +87,14 @@ def c19():
     okonly("passthrough/u64-suffix", "let x: u64 = uint!(0xBBBB_B432_B245_B323_u64);")
     okonly("passthrough/plain-hex", "let x: u32 = uint!(0xAB64);")
     okonly("passthrough/hex-ending-in-B8", "let x: i32 = uint!(0x1B8); let y: Bits<8, 1> = uint!(0x1_B8);")
+    # grid: `B<digits>` directly after the 0x prefix or after hex digits is part of the number, never a Bits suffix;
+    # the type ascription and the const assertion fail to build if the macro rewrites the literal
+    lines = []
+    for pre in ("", "1", "AB", "ff", "0", "B"):
+        for suf in ("B8", "B16", "B256", "B0", "B1", "B64"):
+            litx = "0x%s%s" % (pre, suf)
+            lines.append("let _: u64 = uint!(%s); const _: () = assert!(uint!(%s) == %du64);" % (litx, litx, int(litx, 16)))
+    okonly("passthrough/hex-B-grid", "\n".join(lines))
     okonly("passthrough/float-str", "let x: f64 = uint!(1.5); let s: &str = uint!(\"1_U8\"); let c = uint!('U');")
     okonly("nesting", "let x: [Uint<8, 1>; 1] = uint!{ [ ( { 1_U8 } ) ] }; let v = uint!(vec![1_U8, 2_U8]); let _: Vec<Uint<8, 1>> = v;")
     # type-level proof that a hex literal ending in B<digits> without underscore is NOT a Bits literal
